@@ -2,6 +2,7 @@ import Proofs.C11Rewrite
 import Proofs.C11Slurp
 import Proofs.C11Print
 import Proofs.C11FullConv
+import Proofs.C11Dir
 /-!
   C11 — "the internal query rewrite preserves the meaning of the user's program": property theorems.
 
@@ -186,7 +187,28 @@ theorem print_parse_idem_full (ts : List Full.Tok) (e : Full.E) (h : Full.parse 
     Full.parse (Full.print e) = some e :=
   Proofs.C11.Full.parse_print_parse ts e h
 
+/-- Programs with directives (`module {…};`, `import "p" as name {…};`, `include "p" {…};` in front of the query,
+    FqModel/C11Dir.lean): the printed form of a well-formed program parses back to it. -/
+theorem print_parse_prog (p : Dir.Prog) (hw : Dir.wfProg p = true) : Dir.parseProg (Dir.printProg p) = some p :=
+  Proofs.C11.Dir.print_parse_prog p hw
+
+/-- …and whatever the program parser accepts is well formed and prints to the input. -/
+theorem parse_sound_prog (ts : List Full.Tok) (p : Dir.Prog) (h : Dir.parseProg ts = some p) :
+    Dir.wfProg p = true ∧ Dir.printProg p = ts :=
+  Proofs.C11.Dir.parse_sound_prog ts p h
+
+/-- ⇒ round trip of every accepted program, directives included -/
+theorem print_parse_idem_prog (ts : List Full.Tok) (p : Dir.Prog) (h : Dir.parseProg ts = some p) :
+    Dir.parseProg (Dir.printProg p) = some p :=
+  Proofs.C11.Dir.parse_print_parse_prog ts p h
+
 /-! ### non-vacuity and witnesses -/
+
+open Full Dir in
+/-- a program with all three directives parses -/
+example : (parseProg [.kw .module, .lbrace, .ident "a", .colon, .lbrack, .num "1", .op .comma, .str "x", .op .comma, .kw .null,
+    .rbrack, .rbrace, .semi, .kw .import_, .str "p", .kw .as_, .var "$d", .lbrace, .ident "search", .colon, .str "./", .rbrace, .semi,
+    .kw .include, .str "q", .semi, .var "$d", .op .pipe, .ident "f"]).isSome = true := by decide
 
 open Full in
 /-- the hypotheses of the widened theorems are satisfiable by a tree with every kind of construct:
